@@ -63,7 +63,7 @@ Fixpoint code_loop {A} (fuel : nat) (cl : N) (body : N -> A -> M A) (a : A) : M 
        | _ :: _ =>
            match fuel with
            | O => Panic
-           | S f => bindM (body (as_u16 (rpos c)) a) (code_loop f cl body) c
+           | S f => bindM (body (to_u16 (rpos c)) a) (code_loop f cl body) c
            end
        end.
 Definition run_code {A} (cl : N) (code : list N) (body : N -> A -> M A) (a : A) : out A :=
@@ -316,7 +316,7 @@ Definition read_code (v : vis) (p : pool) (bsms : bsm_table) : M unit :=
   let* _max_stack := rd_u16 in let* _max_locals := rd_u16 in
   let* code_length := rd_u32 in
   if (code_length =? 0) || (65535 <? code_length) then failM else
-  let cl := as_u16 code_length in
+  let cl := to_u16 code_length in
   let* code := rd_vec cl in
   let* st0 := lift (pass1 cl code) in
   let* st1 := read_vec rd_u16 (fun s =>
